@@ -155,8 +155,25 @@ def impl_run(s, real_helper=None):
     from sshuttle.methods import get_method
 
     trace = []
-    rec = trace.append
-    st = {"it": 0, "polled0": False, "forked": False, "closed": False, "after_close_io": 0, "go": False}
+    st = {"it": 0, "polled0": False, "forked": False, "closed": False, "after_close_io": 0, "go": False,
+          "consumed": b"", "sync_emitted": False}
+
+    def sync_consumed():
+        # observed at the boundary only (independent of what the client logs): the client has read,
+        # from ssh's stdout, everything up to and including the correct announcement
+        c = st["consumed"]
+        i = c.find(b"\0")
+        j = c.find(b"\0", i + 1) if i >= 0 else -1
+        return j >= 0 and c[j + 1:j + 1 + len(SYNC) - 2] == SYNC[2:]
+
+    def rec(ev):
+        # "SyncOk" = the client went on (did anything observable other than giving up) after having
+        # consumed the complete, correct announcement
+        if not st["sync_emitted"] and sync_consumed():
+            st["sync_emitted"] = True
+            if ev != "MainEnd(Fatal.ServerDied)":      # the one way to give up after a correct announcement
+                trace.append("SyncOk")
+        trace.append(ev)
 
     def helper_said(line):
         # what the helper really put on the control channel, observed at the pipe (not: "start() returned")
@@ -180,8 +197,10 @@ def impl_run(s, real_helper=None):
             c = self.chunks[0]
             if n < 0 or len(c) <= n:
                 self.chunks.pop(0)
+                st["consumed"] += c
                 return c
             self.chunks[0] = c[n:]
+            st["consumed"] += c[:n]
             return c[:n]
 
     class FakeW:
@@ -437,8 +456,7 @@ def impl_run(s, real_helper=None):
             return NSock()
 
     def fake_log(m):
-        if m.startswith("Connected to server."):
-            rec("SyncOk")
+        pass
 
     real_main_ = client._main
 
